@@ -280,6 +280,12 @@ func (ps *PartSet) AddPart(part *Part) (bool, error) {
 		return false, nil
 	}
 
+	// The proof must be for this position of this part set: Proof.Verify only
+	// binds the bytes to the index and total stated in the proof itself.
+	if part.Proof.Index != int64(part.Index) || part.Proof.Total != int64(ps.total) {
+		return false, ErrPartSetInvalidProof
+	}
+
 	// Check hash proof
 	if part.Proof.Verify(ps.Hash(), part.Bytes) != nil {
 		return false, ErrPartSetInvalidProof
